@@ -6,6 +6,7 @@ package main
 // orchestrate/. Every base must be accepted and instantiate (checked as case "base/<name>").
 
 import (
+	"fmt"
 	"os"
 	"strings"
 )
@@ -64,6 +65,7 @@ type parts struct {
 	metricKeys    string
 	transforms    string
 	output        string
+	moreOutputs   []string // further outputs ("out1", "out2", ...) behind the first one ("mini")
 }
 
 // skeleton renders a complete minimal configuration around the given parts (empty part = default).
@@ -105,7 +107,21 @@ outputBufferPairs:
       maxBufSize: 1MB
     output:
 ` + indent(p.output, 6) + `
-`
+` + moreOutputs(p.moreOutputs)
+}
+
+func moreOutputs(outputs []string) string {
+	text := ""
+	for i, o := range outputs {
+		text += fmt.Sprintf(`  - name: out%d
+    buffer:
+      type: hybridBuffer
+      rootPath: /tmp/slog-buffer-mini-%d
+      maxBufSize: 1MB
+    output:
+`, i+1, i+1) + indent(o, 6) + "\n"
+	}
+	return text
 }
 
 var transformSnippets = []struct{ name, yaml string }{
